@@ -4,57 +4,57 @@
 From DV Require Import Run_C04.
 Open Scope Z_scope.
 
-(* directed-K1-literal-backslash : {'by_literal': 1, 'by_param': 0, 'frame': 1, 'note': '', 'read_back': 'a\\\\b', 'stored_raw': 'a\\\\\\\\b', 'text': 'a\\\\b'} *)
+(* directed-K1-literal-backslash : {'by_literal': 1, 'by_param': 1, 'frame': 1, 'generator': ['ascii: 554 cases, 0 refused, 0 frame violations', 'bool: 4 cases, 0 refused, 0 frame violations', 'default: 120 cases, 0 refused, 0 frame violations', 'directed: 11 cases, 0 refused, 0 frame violations', 'float: 210 cases, 0 refused, 0 fram *)
 Definition w_K1_literal_backslash : c04case := CStr HLiteral [97%N; 92%N; 92%N; 98%N].
-Lemma w_K1_literal_backslash_refuted : spec_C04 w_K1_literal_backslash (run_C04 w_K1_literal_backslash) = false /\ known_C04 w_K1_literal_backslash = [1].
+Lemma w_K1_literal_backslash_holds : spec_C04 w_K1_literal_backslash (run_C04 w_K1_literal_backslash) = true /\ known_C04 w_K1_literal_backslash = [].
 Proof. vm_compute. split; reflexivity. Qed.
 
-(* directed-K1-param-backslash-literal-filter : {'by_literal': 0, 'by_param': 1, 'frame': 1, 'note': '', 'read_back': 'a\\b', 'stored_raw': 'a\\\\b', 'text': 'a\\b'} *)
+(* directed-K1-param-backslash-literal-filter : {'by_literal': 1, 'by_param': 1, 'frame': 1, 'note': '', 'read_back': 'a\\b', 'stored_raw': 'a\\\\b', 'text': 'a\\b'} *)
 Definition w_K1_param_backslash : c04case := CStr HParam [97%N; 92%N; 98%N].
-Lemma w_K1_param_backslash_refuted : spec_C04 w_K1_param_backslash (run_C04 w_K1_param_backslash) = false /\ known_C04 w_K1_param_backslash = [1].
+Lemma w_K1_param_backslash_holds : spec_C04 w_K1_param_backslash (run_C04 w_K1_param_backslash) = true /\ known_C04 w_K1_param_backslash = [].
 Proof. vm_compute. split; reflexivity. Qed.
 
-(* directed-K1-literal-unicode-escape : {'by_literal': 1, 'by_param': 0, 'frame': 1, 'note': '', 'read_back': '\\u0041', 'stored_raw': '\\\\u0041', 'text': '\\u0041'} *)
+(* directed-K1-literal-unicode-escape : {'by_literal': 1, 'by_param': 1, 'frame': 1, 'note': '', 'read_back': 'A', 'stored_raw': 'A', 'text': '\\u0041'} *)
 Definition w_K1_unicode_escape : c04case := CStr HLiteral [92%N; 117%N; 48%N; 48%N; 52%N; 49%N].
-Lemma w_K1_unicode_escape_refuted : spec_C04 w_K1_unicode_escape (run_C04 w_K1_unicode_escape) = false /\ known_C04 w_K1_unicode_escape = [1].
+Lemma w_K1_unicode_escape_holds : spec_C04 w_K1_unicode_escape (run_C04 w_K1_unicode_escape) = true /\ known_C04 w_K1_unicode_escape = [].
 Proof. vm_compute. split; reflexivity. Qed.
 
-(* default : {'default': 'it's', 'note': 'read: near \'s\': syntax error in SELECT \njson_group_array(value->'$') \nFROM (\n    SELECT \n    json_object(\n    'name',_json->'$.32',\n    't',Ifnull(_json->'$.33',?1)) as value\n    FROM _node S\n    WHERE \n    S._entity='0' AND \n    CASE\n        WHEN 'it's' = ? *)
+(* directed-literal-surrogate-pair : {'by_literal': 1, 'by_param': 1, 'frame': 1, 'note': '', 'read_back': '\ud83d\ude00', 'stored_raw': '\ud83d\ude00', 'text': '\\ud83d\\ude00'} *)
+Definition w_surrogate_pair : c04case := CStr HLiteral [92%N; 117%N; 100%N; 56%N; 51%N; 100%N; 92%N; 117%N; 100%N; 101%N; 48%N; 48%N].
+Lemma w_surrogate_pair_holds : spec_C04 w_surrogate_pair (run_C04 w_surrogate_pair) = true /\ known_C04 w_surrogate_pair = [].
+Proof. vm_compute. split; reflexivity. Qed.
+
+(* directed-literal-lone-high-surrogate : {'by_literal': 1, 'by_param': 1, 'frame': 1, 'note': '', 'read_back': 'a\ufffdb', 'stored_raw': 'a\ufffdb', 'text': 'a\\ud83db'} *)
+Definition w_lone_surrogate : c04case := CStr HLiteral [97%N; 92%N; 117%N; 100%N; 56%N; 51%N; 100%N; 98%N].
+Lemma w_lone_surrogate_holds : spec_C04 w_lone_surrogate (run_C04 w_lone_surrogate) = true /\ known_C04 w_lone_surrogate = [].
+Proof. vm_compute. split; reflexivity. Qed.
+
+(* default : {'default': 'it's', 'note': '', 'query': 'query { S (t = \'given\') { name t } }', 'sql': 'SELECT json_group_array(value->'$')FROM(SELECT json_object('name',_json->'$.32','t',Ifnull(_json->'$.33',?1))as value FROM _node \'S\' WHERE \'S\'._entity='0' AND CASE WHEN ?3 = ?2 THEN _json->>'$.33' = ?2 OR  *)
 Definition w_K2_default_quote : c04case := CDefault (Build_emodel [83%N] [48%N] [(Build_fdef [110%N; 97%N; 109%N; 101%N] [51%N; 50%N] TStr false None); (Build_fdef [116%N] [51%N; 51%N] TStr false (Some (VStr [105%N; 116%N; 39%N; 115%N]))); (Build_fdef [110%N] [51%N; 52%N] TInt false (Some (VInt 3)))]) (Build_query None [(Build_selfield 0 None); (Build_selfield 1 None)] [(Build_qfilter (FByName 1) OEq (OLit (VStr [103%N; 105%N; 118%N; 101%N; 110%N])))] [] (OLit (VInt 0)) None PNone).
-Lemma w_K2_default_quote_refuted : spec_C04 w_K2_default_quote (run_C04 w_K2_default_quote) = false /\ known_C04 w_K2_default_quote = [2].
+Lemma w_K2_default_quote_holds : spec_C04 w_K2_default_quote (run_C04 w_K2_default_quote) = true /\ known_C04 w_K2_default_quote = [].
 Proof. vm_compute. split; reflexivity. Qed.
 
-(* default : {'default': '' OR '1'='1', 'note': '', 'query': 'query { S (t = \'given\') { name t } }', 'sql': 'SELECT json_group_array(value->'$')FROM(SELECT json_object('name',_json->'$.32','t',Ifnull(_json->'$.33',?1))as value FROM _node S WHERE S._entity='0' AND CASE WHEN '' OR '1'='1' = ?2 THEN _json->>'$.33 *)
+(* default : {'default': '' OR '1'='1', 'note': '', 'query': 'query { S (t = \'given\') { name t } }', 'sql': 'SELECT json_group_array(value->'$')FROM(SELECT json_object('name',_json->'$.32','t',Ifnull(_json->'$.33',?1))as value FROM _node \'S\' WHERE \'S\'._entity='0' AND CASE WHEN ?3 = ?2 THEN _json->>'$.33' = *)
 Definition w_K2_default_injection : c04case := CDefault (Build_emodel [83%N] [48%N] [(Build_fdef [110%N; 97%N; 109%N; 101%N] [51%N; 50%N] TStr false None); (Build_fdef [116%N] [51%N; 51%N] TStr false (Some (VStr [39%N; 32%N; 79%N; 82%N; 32%N; 39%N; 49%N; 39%N; 61%N; 39%N; 49%N]))); (Build_fdef [110%N] [51%N; 52%N] TInt false (Some (VInt 3)))]) (Build_query None [(Build_selfield 0 None); (Build_selfield 1 None)] [(Build_qfilter (FByName 1) OEq (OLit (VStr [103%N; 105%N; 118%N; 101%N; 110%N])))] [] (OLit (VInt 0)) None PNone).
-Lemma w_K2_default_injection_refuted : spec_C04 w_K2_default_injection (run_C04 w_K2_default_injection) = false /\ known_C04 w_K2_default_injection = [2].
+Lemma w_K2_default_injection_holds : spec_C04 w_K2_default_injection (run_C04 w_K2_default_injection) = true /\ known_C04 w_K2_default_injection = [].
 Proof. vm_compute. split; reflexivity. Qed.
 
-(* shape : {'neutral': 'query { S (b = \'x\', name = $dd) { name b } }', 'query': 'query { S (b = \'dd\', name = $dd) { name b } }', 'sql': 'SELECT json_group_array(value->'$')FROM(SELECT json_object('name',_json->'$.32','b',_json->'$.33')as value FROM _node S WHERE S._entity='0' AND _json->>'$.33' = ?1 AND _j *)
+(* shape : {'neutral': 'query { S (b = \'x\', name = $dd) { name b } }', 'query': 'query { S (b = \'dd\', name = $dd) { name b } }', 'sql': 'SELECT json_group_array(value->'$')FROM(SELECT json_object('name',_json->'$.32','b',_json->'$.33')as value FROM _node \'S\' WHERE \'S\'._entity='0' AND _json->>'$.33' = ? *)
 Definition w_K3_capture : c04case := CShape (Build_emodel [83%N] [48%N] [(Build_fdef [110%N; 97%N; 109%N; 101%N] [51%N; 50%N] TStr false None); (Build_fdef [98%N] [51%N; 51%N] TStr true None); (Build_fdef [99%N] [51%N; 52%N] TStr false (Some (VStr [100%N; 100%N]))); (Build_fdef [110%N] [51%N; 53%N] TInt false None)]) (Build_query None [(Build_selfield 0 None); (Build_selfield 1 None)] [(Build_qfilter (FByName 1) OEq (OLit (VStr [100%N; 100%N]))); (Build_qfilter (FByName 0) OEq (OVar [100%N; 100%N]))] [] (OLit (VInt 0)) None PNone).
-Lemma w_K3_capture_refuted : spec_C04 w_K3_capture (run_C04 w_K3_capture) = false /\ known_C04 w_K3_capture = [3].
+Lemma w_K3_capture_holds : spec_C04 w_K3_capture (run_C04 w_K3_capture) = true /\ known_C04 w_K3_capture = [].
 Proof. vm_compute. split; reflexivity. Qed.
 
-(* float : {'by_literal': 0, 'by_param': 1, 'digits': 16, 'literal': '6.759302089509944e17', 'note': '', 'read_back_raw': '6.759302089509944e+17', 'stored_raw': '6.759302089509944e+17', 'value': '6.759302089509944e17'} *)
-Definition w_K4_float_display : c04case := CFlt HParam 4873671901944935820 4873671901944935820 false.
-Lemma w_K4_float_display_refuted : spec_C04 w_K4_float_display (run_C04 w_K4_float_display) = false /\ known_C04 w_K4_float_display = [4].
+(* float-directed : {'by_literal': 1, 'by_param': 1, 'digits': 16, 'literal': '8.407903850944054e17', 'note': '', 'read_back_raw': '8.407903850944054e+17', 'stored_raw': '8.407903850944054e+17', 'value': '8.407903850944054e17'} *)
+Definition w_K4_float_display : c04case := CFlt HParam 4874959872071056218 4874959872071056218.
+Lemma w_K4_float_display_holds : spec_C04 w_K4_float_display (run_C04 w_K4_float_display) = true /\ known_C04 w_K4_float_display = [].
 Proof. vm_compute. split; reflexivity. Qed.
 
 (* directed-literal-escaped-quote-ok : {'by_literal': 1, 'by_param': 1, 'frame': 1, 'note': '', 'read_back': 'say \'hi\'', 'stored_raw': 'say \\\'hi\\\'', 'text': 'say \\\'hi\\\''} *)
 Definition w_ok_escaped_quote : c04case := CStr HLiteral [115%N; 97%N; 121%N; 32%N; 92%N; 34%N; 104%N; 105%N; 92%N; 34%N].
-Lemma w_ok_escaped_quote_ok : spec_C04 w_ok_escaped_quote (run_C04 w_ok_escaped_quote) = true /\ known_C04 w_ok_escaped_quote = [].
+Lemma w_ok_escaped_quote_holds : spec_C04 w_ok_escaped_quote (run_C04 w_ok_escaped_quote) = true /\ known_C04 w_ok_escaped_quote = [].
 Proof. vm_compute. split; reflexivity. Qed.
 
 (* directed-param-sql : {'by_literal': 1, 'by_param': 1, 'frame': 1, 'note': '', 'read_back': ''; DROP TABLE _node; --', 'stored_raw': ''; DROP TABLE _node; --', 'text': ''; DROP TABLE _node; --'} *)
 Definition w_ok_param_sql : c04case := CStr HParam [39%N; 59%N; 32%N; 68%N; 82%N; 79%N; 80%N; 32%N; 84%N; 65%N; 66%N; 76%N; 69%N; 32%N; 95%N; 110%N; 111%N; 100%N; 101%N; 59%N; 32%N; 45%N; 45%N].
-Lemma w_ok_param_sql_ok : spec_C04 w_ok_param_sql (run_C04 w_ok_param_sql) = true /\ known_C04 w_ok_param_sql = [].
-Proof. vm_compute. split; reflexivity. Qed.
-
-(* default : {'default': 'dd', 'note': '', 'query': 'query { S (t = \'given\') { name t } }', 'sql': 'SELECT json_group_array(value->'$')FROM(SELECT json_object('name',_json->'$.32','t',Ifnull(_json->'$.33',?1))as value FROM _node S WHERE S._entity='0' AND CASE WHEN 'dd' = ?2 THEN _json->>'$.33' = ?2 OR _json->> *)
-Definition w_ok_default_paired : c04case := CDefault (Build_emodel [83%N] [48%N] [(Build_fdef [110%N; 97%N; 109%N; 101%N] [51%N; 50%N] TStr false None); (Build_fdef [116%N] [51%N; 51%N] TStr false (Some (VStr [100%N; 100%N]))); (Build_fdef [110%N] [51%N; 52%N] TInt false (Some (VInt 3)))]) (Build_query None [(Build_selfield 0 None); (Build_selfield 1 None)] [(Build_qfilter (FByName 1) OEq (OLit (VStr [103%N; 105%N; 118%N; 101%N; 110%N])))] [] (OLit (VInt 0)) None PNone).
-Lemma w_ok_default_paired_ok : spec_C04 w_ok_default_paired (run_C04 w_ok_default_paired) = true /\ known_C04 w_ok_default_paired = [].
-Proof. vm_compute. split; reflexivity. Qed.
-
-(* shape : {'neutral': 'query { S (name = \'x\') { name } }', 'query': 'query { S (name = \''; DROP TABLE _node; --\') { name } }', 'sql': 'SELECT json_group_array(value->'$')FROM(SELECT json_object('name',_json->'$.32')as value FROM _node S WHERE S._entity='0' AND _json->>'$.32' = ?1)', 'sql_neutral': 'SELECT *)
-Definition w_ok_shape : c04case := CShape (Build_emodel [83%N] [48%N] [(Build_fdef [110%N; 97%N; 109%N; 101%N] [51%N; 50%N] TStr false None); (Build_fdef [98%N] [51%N; 51%N] TStr true None); (Build_fdef [99%N] [51%N; 52%N] TStr false (Some (VStr [100%N; 100%N]))); (Build_fdef [110%N] [51%N; 53%N] TInt false None)]) (Build_query None [(Build_selfield 0 None)] [(Build_qfilter (FByName 0) OEq (OLit (VStr [39%N; 59%N; 32%N; 68%N; 82%N; 79%N; 80%N; 32%N; 84%N; 65%N; 66%N; 76%N; 69%N; 32%N; 95%N; 110%N; 111%N; 100%N; 101%N; 59%N; 32%N; 45%N; 45%N])))] [] (OLit (VInt 0)) None PNone).
-Lemma w_ok_shape_ok : spec_C04 w_ok_shape (run_C04 w_ok_shape) = true /\ known_C04 w_ok_shape = [].
+Lemma w_ok_param_sql_holds : spec_C04 w_ok_param_sql (run_C04 w_ok_param_sql) = true /\ known_C04 w_ok_param_sql = [].
 Proof. vm_compute. split; reflexivity. Qed.
